@@ -32,7 +32,7 @@ def gen(tier, seed, index):
     cls = CLASSES[index % len(CLASSES)]
     typed = (index // 4) % 3 == 2
     pool = ['shared-factor', 'factor-twice-in-rule', 'ext-also-attached-twice', 'edgeless-internal', 'edgeless-ext', 'unreachable-nt',
-            'zero-weight', 'edge-twice', 'start-arity', 'jpre-shape', 'nullary', 'plain']
+            'zero-weight', 'edge-twice', 'start-arity', 'jpre-shape', 'nullary', 'plain', 'unproductive-nt', 'unproductive-nt']
     forced = [pool[(index // 4) % len(pool)]]
     spec = G.gen_spec(rng, cls, forced, allow_inf=False, typed=typed, max_nodes=4)
     return spec, dict(cls=cls, typed=typed, forced=forced)
@@ -215,7 +215,7 @@ def run_case(tier, seed, index, spec=None, meta=None):
     if spec is None:
         spec, meta = gen(tier, seed, index)
     res = check_spec(spec, meta, index)
-    feats = sorted(G.features_of(spec)) + ['patterned' if meta['typed'] else 'dense']
+    feats = sorted(G.features_of(spec)) + ['patterned' if meta['typed'] else 'dense'] + [f for f in meta['forced'] if f == 'unproductive-nt']
     res.update(cls=meta['cls'], features=feats, key=G.spec_key(spec), sample=dict(spec=G.describe(spec), meta=meta, rho=res.pop('rho', None)))
     for v in res['violations']:
         v['spec'] = spec
@@ -238,7 +238,7 @@ def finalize(tot, tier, seed):
         inc.append('no differentiation ever produced duplicated external nodes (rename_duplicate_nodes special case unreached)')
     if tot['obs'].get('grad_entries_compared', 0) == 0:
         inc.append('no gradient entry compared')
-    for f in ('shared-factor', 'factor-twice-in-rule', 'edge-on-ext', 'edgeless-internal', 'unreachable-nt', 'zero-weight', 'patterned', 'recursive'):
+    for f in ('unproductive-nt', 'shared-factor', 'factor-twice-in-rule', 'edge-on-ext', 'edgeless-internal', 'unreachable-nt', 'zero-weight', 'patterned', 'recursive'):
         if tot['features'].get(f, 0) == 0:
             inc.append(f'feature {f} never generated')
     return {}, inc
